@@ -62,6 +62,11 @@ def _stmts(depth, dim, top=False):
     prop = st.builds(lambda h, r, l: {"s": "prop", "h": h, "r": r, "l": l}, idx, idx, st.none() | idx)
     # objects derived from others: the state of an evolution at a time, a Cartesian component of a dipole operator
     derive = st.builds(lambda o, k: {"s": "derive", "o": o, "k": k}, idx, st.integers(0, 3))
+    # an object that has been used inside the current context is put into protected mode there (its representation is
+    # frozen); the program takes the protection off again right after that context has been left
+    protect_in = st.builds(lambda o: {"s": "protect_inside", "o": o}, idx)
+    # secularize() of a relaxation tensor in the current basis
+    secul = st.builds(lambda o: {"s": "secularize", "o": o}, idx)
     exc = st.one_of(st.builds(lambda o: {"s": "badwrite", "o": o}, idx),
                     # a constructor call that the library refuses (non-square data), caught by the program
                     st.just({"s": "badctor"}),
@@ -69,10 +74,12 @@ def _stmts(depth, dim, top=False):
                     st.just({"s": "badread"}),
                     st.builds(lambda n: {"s": "raise", "levels": n}, st.sampled_from([1, 1, 2])))
     # weights: exceptional statements end a block, keep them rare (about one in twelve leaves)
-    leaf = st.integers(0, 13).flatmap(
+    leaf = st.integers(0, 15).flatmap(
         lambda k: exc if k == 0 else (create if k <= 3 else (read if k <= 6 else (write if k <= 8 else
                                                                                   (apply_ if k <= 10 else
-                                                                                   (prop if k <= 12 else derive))))))
+                                                                                   (prop if k <= 12 else
+                                                                                    (derive if k == 13 else
+                                                                                     (protect_in if k == 14 else secul))))))))
     if depth <= 0:
         return st.lists(leaf, min_size=1, max_size=5)
     inner = _stmts(depth - 1, dim)
@@ -122,6 +129,23 @@ def grid(tier):
                                       {"s": "read", "o": 5}, inner, {"s": "read", "o": 4}]},
                             {"s": "read", "o": 4}, {"s": "read", "o": 5}]
                     yield {"dim": dim, "cplx": False, "base": base, "degenerate": 0, "body": body}
+        # protection applied inside a context (every protectable kind, every context operator), followed by a context of
+        # another operator; secularisation of a tensor as the first thing done with it inside a context
+        for ci in range(3):
+            for o in range(4):
+                body = [{"s": "with", "o": ci, "protect": False, "check": 255,
+                         "body": [{"s": "protect_inside", "o": o},
+                                  {"s": "with", "o": (ci + 1) % 3, "protect": False, "check": 255,
+                                   "body": [{"s": "read", "o": (o + 1) % 4}]}]},
+                        {"s": "read", "o": o},
+                        {"s": "with", "o": (ci + 2) % 3, "protect": False, "check": 255, "body": [{"s": "read", "o": o}]}]
+                yield {"dim": dim, "cplx": False, "base": base, "degenerate": 0, "body": body}
+            for k in (7, 8):
+                body = [{"s": "create", "kind": k, "data": _grid_ints(dim, 40 + k), "flag": 0},
+                        {"s": "with", "o": ci, "protect": False, "check": 255,
+                         "body": [{"s": "secularize", "o": 0}, {"s": "read", "o": 4}]},
+                        {"s": "read", "o": 4}, {"s": "secularize", "o": 0}]
+                yield {"dim": dim, "cplx": False, "base": base, "degenerate": 0, "body": body}
 
 
 # ---------------------------------------------------------------------------
@@ -209,6 +233,7 @@ class Obj(object):
         self.kind, self.live, self.ref, self.extra = kind, live, ref, extra or {}
         self.protected = False
         self.touched_inside = False
+        self.frozen = None              # (representation, nesting level) of an object protected inside a context
 
 
 class Machine(object):
@@ -221,6 +246,7 @@ class Machine(object):
         self.created_inside = 0
         self.first_reads_inside = 0
         self.exceptional_exits = 0
+        self.active_ops = []            # context operators of the contexts that are open
         self.dead = False
 
     # -- model helpers ------------------------------------------------------
@@ -578,6 +604,39 @@ class Machine(object):
             self.pool.append(new)
             ctx.label("derive:" + src.kind + (":inside" if len(self.T) > 1 else ":outside"))
             self.read(new, "derived-object", where=src.kind + "-derived")
+        elif s == "protect_inside":
+            if len(self.T) == 1:
+                return
+            obj = self.pick(stm["o"], ["op", "sa", "dm", "ham"])
+            if obj is None or any(obj is a for a in self.active_ops) or obj.frozen is not None:
+                return
+            self.read(obj, "inside-presentation", where=obj.kind + "/before-protection")
+            if self.dead:
+                return
+            obj.touched_inside = True
+            X = self.cur(obj.ref, obj.kind)
+            obj.live.protect_basis()
+            obj.protected = True
+            obj.frozen = (X, len(self.T))
+            ctx.label("protect-inside:" + obj.kind)
+        elif s == "secularize":
+            obj = self.pick(stm["o"], ["lind_tensor", "tdsop"] if not self.cplx else [])
+            if obj is None:
+                return
+            if len(self.T) > 1:
+                obj.touched_inside = True
+            obj.live.secularize()
+            X = self.cur(obj.ref, obj.kind)
+            d = self.dim
+            keep = numpy.zeros((d, d, d, d), dtype=bool)
+            for a in range(d):
+                for b in range(d):
+                    keep[a, a, b, b] = True
+                    keep[a, b, a, b] = True
+            X = numpy.where(keep if X.ndim == 4 else keep[None], X, 0.0)
+            obj.ref = self.to_outer(X, obj.kind)
+            ctx.label("secularize:" + obj.kind + (":inside" if len(self.T) > 1 else ":outside"))
+            self.read(obj, "secularized-in-current-basis", where=obj.kind)
         elif s == "with":
             self.exec_with(stm)
 
@@ -621,6 +680,7 @@ class Machine(object):
                 if not okS:
                     self.dead = True
                 self.T.append(self.T[-1] @ S)
+                self.active_ops.append(op)
                 if protect:
                     op.protected = True
                 else:
@@ -630,6 +690,7 @@ class Machine(object):
                     self.run_block(stm["body"])
                 finally:
                     self.T.pop()
+                    self.active_ops.pop()
                     op.protected = False
         except Abort as e:
             self.exceptional_exits += 1
@@ -646,6 +707,21 @@ class Machine(object):
             self.dead = True
         if protect:
             op.live.unprotect_basis()
+        for o in self.pool:
+            if o.frozen is not None and o.frozen[1] == depth + 1:
+                # protected inside the context that has just been left: its frozen representation now stands for the
+                # object in the enclosing basis
+                X, _ = o.frozen
+                o.frozen = None
+                try:
+                    o.live.unprotect_basis()
+                except Exception as e:
+                    ctx.fail("unprotect/raises", o.kind, exc=type(e).__name__, msg=str(e)[:120])
+                    self.dead = True
+                o.protected = False
+                o.ref = self.to_outer(X, o.kind)
+                if not self.dead:
+                    self.read(o, "protected-inside/after-exit", where=o.kind)
         after = self.snapshot()
         if after != snap:
             ctx.fail("bookkeeping-restored", "depth=%d" % depth, before=list(snap), after=list(after))
